@@ -189,6 +189,50 @@ def run(tier):
             if len(v.cov["samples"]) < 4 and len(cells) > 2:
                 v.sample({"table": c.meta["text"][:300], "op": op[:120], "cells": common.wide(cells), "consumed": cons})
     v.cov["traces_validated_against_impl"] = dist["engine_compared"]
+    # ---- capital signs and multi-character rules: with `capsletter` as the only capital indicator every upper-case letter
+    # of the consumed text gets exactly one sign, whichever rule translated it - also a letter INSIDE the match of a
+    # word-position rule, whose sign is emitted behind the rule's cells (seeded change C05-H skipped the positions a rule had
+    # consumed).  The sign's cell (dot 6 alone) occurs in no other rule of these tables, so it can be counted in a dotsIO run.
+    ccases = []
+    for i in range(30 if tier == "quick" else 600):
+        letters = rng.sample("abcdefghijklmnop", rng.randint(3, 6))
+        cells = rng.sample(range(1, 32), len(letters))
+        L = ["space \\s 0"] + ["lowercase %s %s" % (ch, G.dots_str(d)) for ch, d in zip(letters, cells)]
+        L += ["base uppercase %s %s" % (ch.upper(), ch) for ch in letters]
+        L.append("capsletter 6")
+        for _ in range(rng.randint(1, 4)):
+            wd = "".join(rng.choice(letters) for _ in range(rng.randint(2, 3)))
+            L.append("%s %s %s" % (rng.choice(["begword", "endword", "midword", "word", "always", "begmidword", "midendword", "partword"]), wd,
+                                   "-".join(G.dots_str(rng.randint(1, 31)) for _ in range(rng.randint(1, 2)))))
+        tn = "c05caps%d.ctb" % i
+        rules = [l.split(" ")[1] for l in L if l.split(" ")[0] in ("begword", "endword", "midword", "word", "always", "begmidword", "midendword", "partword")]
+        ops = []
+        for _ in range(10):
+            u = []
+            for _w in range(rng.randint(1, 3)):
+                wd = list(rng.choice(rules)) if rng.random() < 0.7 else [rng.choice(letters) for _ in range(rng.randint(1, 3))]
+                wd = [rng.choice(letters)] * rng.randint(0, 1) + wd + [rng.choice(letters)] * rng.randint(0, 1)
+                u += [(ch.upper() if rng.random() < 0.5 else ch) for ch in wd] + [" "]
+            u = u[:-1]
+            ops.append("FWD %s 4 %d - 12 %s - -" % (tn, 6 * len(u) + 16, common.wide("".join(u))))
+        ccases.append(common.Case("c05-caps%d" % i, ["TBL %s %s" % (tn, common.hexbytes("\n".join(L) + "\n"))], ops, {"text": "\n".join(L)}))
+    common.run_cases(exe, ccases, batch=4)
+    ncaps = 0
+    for c in ccases:
+        for op, o in zip(c.ops, c.out):
+            R = common.parse_R(o)
+            u = common.unwide(op.split(" ")[6])
+            if R is None or not R["ret"] or R["inlen"] != len(u):
+                continue
+            ncaps += 1
+            v.cov["evaluations"] += 1
+            want = sum(1 for x in u if 0x41 <= x <= 0x5a)
+            got = sum(1 for x in R["out"] if x == 0x8020)
+            if got != want:
+                v.violation("C05:caps:sign-per-capital", "%d upper-case letters, %d capital signs (capsletter is the only capital indicator of "
+                            "the table): %s" % (want, got, o[:160]), {"script": c.setup + [op], "result": o[:400], "table_text": c.meta["text"]})
+                break
+    dist["caps_calls"] = ncaps
     v.cov["distribution"] = dist
     v.cov["rule"] = ("%d grammar-generated tables (2-8 letters incl. hash-colliding characters, digits, punctuation, upper case, "
                      "0-9 always/word-position rules with duplicate strings, shared prefixes, undefined characters, '=' operands, "
